@@ -29,6 +29,7 @@ META["claim"] += " " + 'Round 3b: a foreign socket.setdefaulttimeout() in force 
 META["claim"] += " " + 'Round 4: connection failures that take a while to come back (each within the socket timeout, together beyond it); the addresses of an HTTP proxy tried in order with the configured timeout (http_proxy_timeout given as well) and options.'
 META["claim"] += " " + 'Round 5: paths beginning with / containing empty segments, dot segments, blanks, encoded slashes; user socket options that share an option number at different levels.'
 META["claim"] += " " + 'Rounds 6-7: connect(timeout=0); hosts no resolver can encode (judged by the resolver call and the address error); unreachable = ENETUNREACH or EHOSTUNREACH; the four-argument socket option form and bytes values.'
+META["claim"] += " " + 'Round 8: link-local addresses with scope ids - connect() is given the socket address as resolved.'
 
 SCHEMES = ["ws", "wss", "http", "https", "", None, "wsx", "ftp", "WSS", "Wss", "WS"]  # None = no colon at all
 HOSTS = ["example.test", "EXAMPLE.Test", "10.1.2.3", "[2001:db8::1]", "[::1]", "user:pw@auth.test", "", "a-b.c_d.test"]
